@@ -102,6 +102,65 @@ def reach_bytes(word: bytes) -> bool:
     return not (len(ts) > 0 and len(word) == NB and word[0] == 0xE9)
 
 
+# ---- Fandango.parse: the constraint filter incl. computed repetition bounds -------------------------
+from fandango import Fandango
+
+RSPEC = '<start> ::= <hdr> <x>{int(<n>)} ";"\n<hdr> ::= <n> <t> | <t> <n>\n<n> ::= "1" | "2"\n<t> ::= "1" | "2"\n<x> ::= "x"\n'
+F_REP = Fandango(RSPEC, use_stdlib=False, use_cache=False)
+RALPHA = "12x;"
+NR = int(os.environ.get("H_RLEN", "4"))
+
+
+def concretise(word, alpha):
+    out = ""
+    for c in word:
+        for a in alpha:
+            if c == a:
+                out += a
+                break
+        else:
+            raise IgnoreAttempt("outside the alphabet")
+    return out
+
+
+def api_repetition(word: str) -> bool:
+    """
+    pre: 1 <= len(word) <= NR and all(c in RALPHA for c in word)
+    post: _
+    """
+    exclude_known("api_repetition", word=word)
+    w = concretise(word, RALPHA)
+    F_REP.grammar._parser._cache.clear()
+    for c in F_REP.constraints:
+        if hasattr(c, "cache"):
+            c.cache.clear()
+    try:
+        ts = list(F_REP.parse(w))
+    except Exception:
+        ts = []
+    for t in ts:
+        if t.to_string() != w:
+            return False
+        ns = [c for c in t.children[0].children if c.symbol.is_non_terminal and c.symbol.name() == "<n>"]
+        xs = [c for c in t.children if c.symbol.is_non_terminal and c.symbol.name() == "<x>"]
+        if len(ns) != 1 or len(xs) != int(text_of(ns[0])):
+            return False  # a tree that violates the computed repetition bound passed the API's constraint filter
+    return True
+
+
+def reach_rep(word: str) -> bool:
+    """
+    pre: 1 <= len(word) <= NR and all(c in RALPHA for c in word)
+    post: _
+    """
+    w = concretise(word, RALPHA)
+    try:
+        ts = list(F_REP.parse(w))
+    except Exception:
+        ts = []
+    return len(ts) == 0
+
+
 def obs(word, prior):
     g = CONF_G
     ts = list(g.parse_forest(word))
